@@ -280,7 +280,9 @@ func runRaceFree() *ShardResult {
 	res := newResult()
 	iters := int(fBudget.Seconds())
 	scs := append(c06Scenarios(), c14Scenarios()...)
-	for it := 0; it < iters; it++ {
+	// at most `iters` rounds, and never longer than a third of what the exhaustive part was given
+	stopAt := time.Now().Add(time.Duration(iters/10+20) * time.Second)
+	for it := 0; it < iters && time.Now().Before(stopAt); it++ {
 		for _, sc := range scs {
 			if err := core.RunScenarioFree(sc, *fSeed+int64(it)); err != nil {
 				res.Notes = append(res.Notes, err.Error())
